@@ -45,7 +45,9 @@ type proxyConn struct {
 	secure bool
 	// mitm is set once the connection carries an intercepted TLS session.
 	mitm bool
-	cs   tls.ConnectionState
+	// mitmAuthority is the authority of the CONNECT request that opened the intercepted session.
+	mitmAuthority string
+	cs            tls.ConnectionState
 }
 
 // maxRequestHeadBytes is the most that is read from a connection for one request head,
@@ -156,6 +158,12 @@ func (p *proxyConn) readRequest() (*http.Request, error) {
 	if req.URL.Host == "" {
 		req.URL.Host = req.Host
 	}
+	// A request without a Host field (HTTP/1.0) inside an intercepted session
+	// is meant for the host the session was opened for.
+	if req.URL.Host == "" && p.mitm {
+		req.URL.Host = p.mitmAuthority
+		req.Host = p.mitmAuthority
+	}
 
 	req = req.WithContext(withTraceID(p.BaseContext, newTraceID(req.Header.Get(p.RequestIDHeader))))
 
@@ -264,6 +272,7 @@ func (p *proxyConn) handleMITM(req *http.Request) error {
 		p.conn = tlsconn
 		p.secure = true
 		p.mitm = true
+		p.mitmAuthority = req.URL.Host
 		p.cs = cs
 
 		return nil
